@@ -1,43 +1,57 @@
 (* C11 — listby/unlist, groupby/ungroup, pivot/unpivot are lossless regroupings.
-   Property theorems only; each is closed by a lemma of proofs/P_group.v (which builds on the C07 development).
-   ks is the list of the rows' keys (any values); listby_groups ks is the model of dictable._listby: the (key, row indices) groups
-   that listby / groupby / xyz turn into rows, sub-tables and pivot cells.  Every statement is for ALL tables / key lists.
+   Property theorems only; each is closed by lemmas of proofs/P_group.v (which builds on the C07 development).
+   ks = keys_of by t is the list of the rows' key tuples; listby_groups ks is the model of dictable._listby: the (key, row indices)
+   groups that listby / groupby / xyz turn into rows, sub-tables and pivot cells.  Every statement is for ALL tables / key choices.
    eq_cmp_compat ks (python's == on the keys present coincides with cmp = 0) is the precondition under which "distinct key" has
-   one meaning; it holds for NaN-free scalar keys and when the NaN cells of a key column are one object (see C11_example). *)
+   one meaning; C11_scalar_keys_compat: it holds for NaN-free scalar keys (also when the NaN cells of a key column are one object).
+   A group is filed under the LAST key of its run, so listby / groupby return 1.0 for the rows keyed 1 and 1.0: the general
+   statements relate key cells by cmp = 0 (python ==); under keys_exact (== keys are identical) they are literal equalities of rows. *)
 From Coq Require Import ZArith List Bool Lia Permutation Sorted.
 From PB Require Import model.M_sort model.M_group proofs.P_sort proofs.P_group.
 Import ListNotations.
 Open Scope Z_scope.
 
 (* exactly one group per distinct key: the groups' keys are strictly increasing under cmp (so pairwise different), no group is
-   empty, every row index in a group is a row whose key compares 0 with the group's key, and a group lists its rows in
-   original order *)
+   empty, and a group holds EXACTLY the rows whose key compares 0 with the group's key, in original row order *)
 Theorem C11_listby_one_row_per_key ks : eq_cmp_compat ks ->
   StronglySorted (fun a b => cmp a b < 0) (map fst (listby_groups ks)) /\
-  Forall (fun g => snd g <> [] /\ (forall i, In i (snd g) -> (i < length ks)%nat /\ cmp (nth i ks VNone) (fst g) = 0) /\
+  Forall (fun g => snd g <> [] /\ snd g = filter (fun i => cmp (nth i ks VNone) (fst g) =? 0) (seq 0 (length ks)) /\
                    StronglySorted (fun i j => (i < j)%nat) (snd g)) (listby_groups ks).
 Proof.
   intros H. destruct (listby_groups_one_per_key ks H) as [A B]. split; [exact A|].
   pose proof (listby_groups_original_order ks H) as C. rewrite Forall_forall in *. intros g Hg.
-  destruct (B g Hg) as [B1 B2]. split; [exact B1|]. split; [exact B2 | exact (C g Hg)].
+  destruct (B g Hg) as [B1 _]. split; [exact B1|]. split; [exact (listby_group_ids ks g H Hg) | exact (C g Hg)].
 Qed.
 Print Assumptions C11_listby_one_row_per_key.
 
-(* the precondition of C11_listby_one_row_per_key holds for every table whose key cells are NaN-free scalars
-   (None, ints, floats, strings, datetimes): there python's == on key tuples and cmp = 0 are the same relation *)
+(* the precondition holds for every table whose key cells are NaN-free scalars (None, ints, floats, strings, datetimes) *)
 Theorem C11_scalar_keys_compat ks : Forall (fun k => exists l, k = VTuple l /\ Forall scalar_nf l) ks -> eq_cmp_compat ks.
 Proof. exact (scalar_keys_compat ks). Qed.
 Print Assumptions C11_scalar_keys_compat.
 
-(* unlist(listby): the groups, read in order, list the row indices in exactly the order of the stable sort by the keys
-   (dsort_idx is dictable.sort's index list, C07_dsort_stable), for ANY keys.
-   _partial: the statement is on row indices; that unlist spreads the list cells back into these rows (the dictable
-   construction / concat plumbing) is tied to the code by the correspondence, not proved. *)
-Theorem C11_unlist_listby_partial ks :
-  flat_map snd (listby_groups ks) = dsort_idx ks /\
-  Permutation (dsort_idx ks) (seq 0 (length ks)) /\ StronglySorted (key_lt ks) (dsort_idx ks).
-Proof. split; [exact (listby_groups_flat ks) | exact (dsort_idx_stable ks)]. Qed.
-Print Assumptions C11_unlist_listby_partial.
+(* unlist(listby(keys)) = the original table stably sorted by the keys, at table level.
+   S = dictable.sort(keys) of t (C07_dsort_stable: rows at idx, the stable order).  The result has the key columns first, rebuilt
+   from one key tuple per row (reps) that compares 0 with that row's own key, then exactly the other columns of S.
+   If == keys are identical (keys_exact) the result IS S with its key columns moved first: its rows are map (row T) idx. *)
+Theorem C11_unlist_listby by_ t : by_ <> [] -> nrows t <> 0%nat -> nonkey by_ t <> [] -> scalar_table t ->
+  let ks := keys_of by_ t in let idx := dsort_idx ks in let S := dsort_with (key_cols by_) t in
+  eq_cmp_compat ks ->
+  exists reps, length reps = nrows t /\ Forall2 (fun i rep => cmp (nth i ks VNone) rep = 0) idx reps /\
+    unlist (listby by_ t) = rep_table by_ reps ++ nonkey by_ S /\ S = permute t idx /\
+    Permutation idx (seq 0 (nrows t)) /\ StronglySorted (key_lt ks) idx /\
+    (keys_exact ks -> Forall (fun c => in_names c (map fst t) = true) by_ ->
+       unlist (listby by_ t) = permute (keypart by_ t ++ nonkey by_ t) idx /\
+       rows (unlist (listby by_ t)) = map (row (keypart by_ t ++ nonkey by_ t)) idx).
+Proof.
+  intros Hby Hn Hnk Hs ks idx S Hc. exists (reps_of (listby_groups ks)).
+  assert (ES : S = permute t idx). { unfold S, dsort_with. destruct (nrows t); [congruence | reflexivity]. }
+  assert (LK : length ks = nrows t) by (unfold ks, keys_of; apply keys_length).
+  split; [rewrite reps_length; exact LK|]. split; [exact (reps_match ks Hc)|].
+  split; [rewrite ES; exact (unlist_listby_table by_ t Hby Hn Hnk Hs)|]. split; [exact ES|].
+  destruct (dsort_idx_stable ks) as [P St]. rewrite LK in P. split; [exact P|]. split; [exact St|].
+  intros Hx Hsub. exact (unlist_listby_exact by_ t Hby Hn Hnk Hsub Hc Hx Hs).
+Qed.
+Print Assumptions C11_unlist_listby.
 
 (* groupby: the sub-tables' sizes add up to len(d), one sub-table per key row; hypothesis = the keys are a proper subset of the columns *)
 Theorem C11_groupby_sizes_sum by_ t kt subs : nonkey (all_if_none by_ t) t <> [] -> groupby by_ t = Some (kt, subs) ->
@@ -45,24 +59,128 @@ Theorem C11_groupby_sizes_sum by_ t kt subs : nonkey (all_if_none by_ t) t <> []
 Proof. exact (groupby_sizes_sum by_ t kt subs). Qed.
 Print Assumptions C11_groupby_sizes_sum.
 
-(* ungroup(groupby): the groups hold every row index exactly once (a permutation of 0..n-1), for ANY keys.
-   _partial: on row indices; the re-assembly of the rows from sub-tables and key cells is covered by the correspondence. *)
-Theorem C11_ungroup_groupby_partial ks : Permutation (flat_map snd (listby_groups ks)) (seq 0 (length ks)) /\
-  fold_right (fun g s => (length (snd g) + s)%nat) 0%nat (listby_groups ks) = length ks.
-Proof. split; [exact (listby_groups_perm ks) | exact (listby_groups_sizes ks)]. Qed.
-Print Assumptions C11_ungroup_groupby_partial.
+(* ungroup(groupby(keys)) restores the rows of the table: the non-key columns are exactly those of t at a permutation idx of the
+   row indices, the key columns are rebuilt from key tuples comparing 0 with each row's own key; if == keys are identical the
+   rows of the result are a Permutation of the rows of t (columns: non-key first, then the keys). *)
+Theorem C11_ungroup_groupby by_ t n kt subs : by_ <> [] -> nrows t <> 0%nat -> nonkey by_ t <> [] -> rect n t -> NoDup (map fst t) ->
+  groupby by_ t = Some (kt, subs) ->
+  let ks := keys_of by_ t in let idx := dsort_idx ks in
+  eq_cmp_compat ks ->
+  exists reps, length reps = nrows t /\ Forall2 (fun i rep => cmp (nth i ks VNone) rep = 0) idx reps /\
+    ungroup kt subs = nonkey by_ (permute t idx) ++ rep_table by_ reps /\ Permutation idx (seq 0 (nrows t)) /\
+    (keys_exact ks -> Forall (fun c => in_names c (map fst t) = true) by_ ->
+       ungroup kt subs = permute (nonkey by_ t ++ keypart by_ t) idx /\
+       Permutation (rows (ungroup kt subs)) (rows (nonkey by_ t ++ keypart by_ t))).
+Proof.
+  intros Hby Hn Hnk Hr ND Gb ks idx Hc. exists (reps_of (listby_groups ks)).
+  assert (LK : length ks = nrows t) by (unfold ks, keys_of; apply keys_length).
+  split; [rewrite reps_length; exact LK|]. split; [exact (reps_match ks Hc)|].
+  split; [exact (ungroup_groupby_table by_ t kt subs Hby Hn Hnk ND Gb)|].
+  destruct (dsort_idx_stable ks) as [P _]. rewrite LK in P. split; [exact P|].
+  intros Hx Hsub. exact (ungroup_groupby_exact by_ t Hby Hn Hnk Hsub Hc Hx n kt subs Hr ND Gb).
+Qed.
+Print Assumptions C11_ungroup_groupby.
 
-(* the hypotheses are satisfiable on a non-trivial table (mixed types, 1 vs 1.0, a shared NaN), and the model computes what the code does *)
+(* pivot: the result has one row per distinct x key (strictly increasing under cmp) and one column per distinct y value
+   (labels strictly increasing under cmp); the cell of x-group gi and label number k is agg applied to the z values of EXACTLY
+   the rows of t whose x key compares 0 with the group's key and whose y compares 0 with the label, in original row order,
+   and None when there is no such row; every row of t has such a cell.  Hypothesis: cells are NaN-free scalars. *)
+Theorem C11_pivot_cell x y z a t : nf_table t ->
+  let KS := keys_of (x ++ [y]) t in let m := length x in let xg := pv_xg m KS in let YL := pv_ylabels m KS in let zs := getcol t z in
+  pivot x y z a t = key_table x xg ++ map (fun kl => (label_of (snd kl), map (fun gi => pv_cell m KS zs a gi (fst kl)) xg)) (combine (seq 0 (length YL)) YL) /\
+  StronglySorted (fun a b => cmp a b < 0) (map fst xg) /\ StronglySorted (fun a b => cmp a b < 0) YL /\
+  (forall gi k, In gi xg -> (k < length YL)%nat ->
+     pv_cell m KS zs a gi k =
+     match filter (fun i => (cmp (key_cols x (row t i)) (fst gi) =? 0) && (cmp (lookup (row t i) y) (nth k YL VNone) =? 0)) (seq 0 (nrows t)) with
+     | [] => VNone
+     | R => apply_agg a (gather VNone zs R)
+     end) /\
+  (forall i, (i < nrows t)%nat -> exists gi k, In gi xg /\ (k < length YL)%nat /\
+     cmp (key_cols x (row t i)) (fst gi) = 0 /\ cmp (lookup (row t i) y) (nth k YL VNone) = 0).
+Proof. exact (pivot_cell_table x y z a t). Qed.
+Print Assumptions C11_pivot_cell.
+
+(* unpivot(pivot): for a table with unique (x, y) pairs and z never None, pivoted with last / first.
+   The unpivoted table has one row per (x group, y label), row-major: the group's x cells, the label as a string (y rendered as
+   column label), and the pivot cell.  A row whose cell is None stands for no row of t; every other row is exactly one row i of t
+   (x key and y compare 0, z identical, and it is the only such row of t); every row of t is recovered this way.
+   So dropping the None rows leaves the (x, y, z) rows of t, each once. *)
+Theorem C11_unpivot_pivot x y z a t : x <> [] -> NoDup x -> nf_table t -> (a = ALast \/ a = AFirst) ->
+  (forall i i', (i < nrows t)%nat -> (i' < nrows t)%nat ->
+     cmp (key_cols (x ++ [y]) (row t i)) (key_cols (x ++ [y]) (row t i')) = 0 -> i = i') ->
+  (forall i, (i < nrows t)%nat -> nth i (getcol t z) VNone <> VNone) ->
+  let KS := keys_of (x ++ [y]) t in let m := length x in let xg := pv_xg m KS in let YL := pv_ylabels m KS in let zs := getcol t z in
+  Forall (fun l => in_names (label_of l) x = false) YL ->
+  unpivot x y z (pivot x y z a t) =
+    map (fun jc => (snd jc, flat_map (fun gi : val * list nat => repeat (tuple_nth (fst jc) (fst gi)) (length YL)) xg)) (combine (seq 0 (length x)) x)
+    ++ [(y, flat_map (fun _ : val * list nat => map (fun l => VStr (label_of l)) YL) xg);
+        (z, flat_map (fun gi => map (fun k => pv_cell m KS zs a gi k) (seq 0 (length YL))) xg)] /\
+  StronglySorted (fun a b => cmp a b < 0) (map fst xg) /\ StronglySorted (fun a b => cmp a b < 0) YL /\
+  (forall gi k, In gi xg -> (k < length YL)%nat ->
+     let matches i := cmp (key_cols x (row t i)) (fst gi) = 0 /\ cmp (lookup (row t i) y) (nth k YL VNone) = 0 in
+     (pv_cell m KS zs a gi k = VNone /\ forall i, (i < nrows t)%nat -> ~ matches i) \/
+     (exists i, (i < nrows t)%nat /\ matches i /\ pv_cell m KS zs a gi k = nth i zs VNone /\ pv_cell m KS zs a gi k <> VNone /\
+                forall i', (i' < nrows t)%nat -> matches i' -> i' = i)) /\
+  (forall i, (i < nrows t)%nat -> exists gi k, In gi xg /\ (k < length YL)%nat /\
+     cmp (key_cols x (row t i)) (fst gi) = 0 /\ cmp (lookup (row t i) y) (nth k YL VNone) = 0 /\ pv_cell m KS zs a gi k = nth i zs VNone).
+Proof.
+  intros Hx ND H Ha U ZN KS m xg YL zs NC.
+  destruct (pivot_cell_table x y z a t H) as [_ [SX [SY [_ HC]]]]. fold KS m xg YL zs in SX, SY, HC.
+  pose proof (pivot_cell_unique x y z a t H Ha U) as PU. cbv zeta in PU. fold KS m xg YL zs in PU.
+  split; [exact (unpivot_pivot_table x y z a t Hx ND NC)|]. split; [exact SX|]. split; [exact SY|]. split.
+  - intros gi k Hgi Hk matches. destruct (PU gi k Hgi Hk) as [L|[i [Hi [Mi [Ei Ui]]]]]; [left; exact L|].
+    right. exists i. split; [exact Hi|]. split; [exact Mi|]. split; [exact Ei|]. split; [rewrite Ei; apply ZN; exact Hi | exact Ui].
+  - intros i Hi. destruct (HC i Hi) as [gi [k [Hgi [Hk [A B]]]]]. exists gi, k. split; [exact Hgi|]. split; [exact Hk|]. split; [exact A|]. split; [exact B|].
+    destruct (PU gi k Hgi Hk) as [[_ L]|[i0 [Hi0 [Mi0 [Ei0 Ui0]]]]]; [exfalso; apply (L i Hi); split; assumption|].
+    rewrite Ei0. f_equal. symmetry. apply Ui0; [exact Hi | split; assumption].
+Qed.
+Print Assumptions C11_unpivot_pivot.
+
+(* the hypotheses are satisfiable on non-trivial tables (mixed types, 1 vs 1.0, a shared NaN), and the model computes what the code does *)
 Example C11_example :
   let t : table := [([97%N], [VNum false 2; VStr [120%N]; VNum true 2; VNone; VStr [120%N]; VNaN 0; VNaN 0]);
                     ([98%N], [VNum false 2; VNum false 4; VNum false 6; VNum false 8; VNum false 10; VNum false 12; VNum false 14])] in
-  eq_cmp_compat (keys_of [[97%N]] t) /\ nonkey [[97%N]] t <> [] /\
+  let u : table := [([97%N], [VNum false 2; VStr [120%N]; VNum false 2; VNone; VStr [120%N]]);
+                    ([98%N], [VNum false 2; VNum false 4; VNum false 6; VNum false 8; VNum false 10])] in
+  eq_cmp_compat (keys_of [[97%N]] t) /\ nonkey [[97%N]] t <> [] /\ scalar_table t /\ rect 7 t /\ NoDup (map fst t) /\
   listby [[97%N]] t = [([97%N], [VNone; VNum true 2; VNaN 0; VStr [120%N]]);
                       ([98%N], [VList [VNum false 8]; VList [VNum false 2; VNum false 6]; VList [VNum false 12; VNum false 14]; VList [VNum false 4; VNum false 10]])] /\
   unlist (listby [[97%N]] t) = [([97%N], [VNone; VNum true 2; VNum true 2; VNaN 0; VNaN 0; VStr [120%N]; VStr [120%N]]);
-                               ([98%N], [VNum false 8; VNum false 2; VNum false 6; VNum false 12; VNum false 14; VNum false 4; VNum false 10])].
+                               ([98%N], [VNum false 8; VNum false 2; VNum false 6; VNum false 12; VNum false 14; VNum false 4; VNum false 10])] /\
+  eq_cmp_compat (keys_of [[97%N]] u) /\ keys_exact (keys_of [[97%N]] u) /\ Forall (fun c => in_names c (map fst u) = true) [[97%N]] /\
+  unlist (listby [[97%N]] u) = permute u [3; 0; 2; 1; 4]%nat.
 Proof.
-  cbv zeta. split; [|split; [vm_compute; congruence | split; vm_compute; reflexivity]].
-  intros a b Ha Hb. vm_compute in Ha, Hb.
-  repeat (destruct Ha as [<-|Ha]; [repeat (destruct Hb as [<-|Hb]; [vm_compute; split; congruence|]); destruct Hb|]); destruct Ha.
+  cbv zeta.
+  split. { intros a b Ha Hb. vm_compute in Ha, Hb.
+    repeat (destruct Ha as [<-|Ha]; [repeat (destruct Hb as [<-|Hb]; [vm_compute; split; congruence|]); destruct Hb|]); destruct Ha. }
+  split; [vm_compute; congruence|]. split; [repeat constructor|]. split; [repeat constructor|].
+  split. { repeat constructor; cbn; intuition congruence. }
+  split; [vm_compute; reflexivity|]. split; [vm_compute; reflexivity|].
+  split. { intros a b Ha Hb. vm_compute in Ha, Hb.
+    repeat (destruct Ha as [<-|Ha]; [repeat (destruct Hb as [<-|Hb]; [vm_compute; split; congruence|]); destruct Hb|]); destruct Ha. }
+  split. { intros a b Ha Hb. vm_compute in Ha, Hb.
+    repeat (destruct Ha as [<-|Ha]; [repeat (destruct Hb as [<-|Hb]; [vm_compute; intros C; try reflexivity; try discriminate C|]); destruct Hb|]); destruct Ha. }
+  split; [repeat constructor|]. vm_compute. reflexivity.
+Qed.
+
+(* pivot / unpivot on a concrete table: x = a, y = c, z = b *)
+Example C11_pivot_example :
+  let t : table := [([97%N], [VNum false 2; VStr [120%N]; VNum false 2; VNone; VStr [120%N]]);
+                    ([98%N], [VNum false 2; VNum false 4; VNum false 6; VNum false 8; VNum false 10]);
+                    ([99%N], [VStr [112%N]; VStr [113%N]; VStr [113%N]; VStr [113%N]; VStr [114%N]])] in
+  nf_table t /\ NoDup [[97%N]] /\
+  Forall (fun l => in_names (label_of l) [[97%N]] = false) (pv_ylabels 1 (keys_of [[97%N]; [99%N]] t)) /\
+  (forall i i', (i < nrows t)%nat -> (i' < nrows t)%nat -> cmp (key_cols [[97%N]; [99%N]] (row t i)) (key_cols [[97%N]; [99%N]] (row t i')) = 0 -> i = i') /\
+  pivot [[97%N]] [99%N] [98%N] ALast t =
+    [([97%N], [VNone; VNum false 2; VStr [120%N]]); ([112%N], [VNone; VNum false 2; VNone]);
+     ([113%N], [VNum false 8; VNum false 6; VNum false 4]); ([114%N], [VNone; VNone; VNum false 10])] /\
+  unpivot [[97%N]] [99%N] [98%N] (pivot [[97%N]] [99%N] [98%N] ALast t) =
+    [([97%N], [VNone; VNone; VNone; VNum false 2; VNum false 2; VNum false 2; VStr [120%N]; VStr [120%N]; VStr [120%N]]);
+     ([99%N], [VStr [112%N]; VStr [113%N]; VStr [114%N]; VStr [112%N]; VStr [113%N]; VStr [114%N]; VStr [112%N]; VStr [113%N]; VStr [114%N]]);
+     ([98%N], [VNone; VNum false 8; VNone; VNum false 2; VNum false 6; VNone; VNone; VNum false 4; VNum false 10])].
+Proof.
+  cbv zeta. split; [repeat constructor|]. split; [repeat constructor; cbn; tauto|]. split; [vm_compute; repeat constructor|].
+  split; [|split; vm_compute; reflexivity].
+  intros i i' Hi Hi'. cbn in Hi, Hi'.
+  do 5 (destruct i as [|i]; [do 5 (destruct i' as [|i']; [vm_compute; intros C; try reflexivity; try discriminate C|]); exfalso; lia|]); exfalso; lia.
 Qed.
